@@ -336,6 +336,13 @@ func (c *Conn) handleControl(ctx context.Context, h header) (err error) {
 	err = fmt.Errorf("received close frame: %w", ce)
 	c.readCloseFrameErr = err
 	c.writeClose(ce.Code, ce.Reason)
+	if c.msgReader.reading {
+		// The close frame arrived in between the fragments of a message that is
+		// being read: the caller is still inside that message's flate reader, which
+		// closing the connection returns to the pool. msgReader.Read closes the
+		// connection once it has released readMu.
+		return err
+	}
 	c.readMu.unlock()
 	c.close()
 	return err
@@ -385,6 +392,9 @@ type msgReader struct {
 	payloadLength int64
 	maskKey       uint32
 
+	// reading is set while a Read of the message is in progress. Protected by readMu.
+	reading bool
+
 	// util.ReaderFunc(mr.Read) to avoid continuous allocations.
 	readFunc util.ReaderFunc
 }
@@ -419,6 +429,17 @@ func (mr *msgReader) Read(p []byte) (n int, err error) {
 		// returned to the pool where another connection may have picked it up.
 		return 0, io.EOF
 	}
+
+	mr.reading = true
+	defer func() {
+		mr.reading = false
+		if mr.c.readCloseFrameErr != nil {
+			// See handleControl: the connection is closed only now that nothing
+			// of this message's flate reader is in use any more.
+			mr.c.readMu.unlock()
+			mr.c.close()
+		}
+	}()
 
 	n, err = mr.limitReader.Read(p)
 	// mr.dict is nil if the connection was closed during the read
